@@ -39,6 +39,8 @@ class Harness:
         self.m = None       # its model: dict key -> value
         self.t2 = None      # secondary table derived by zeros_like / ones_like (same key layout)
         self.m2 = None
+        self.twin = None    # built from the same arrays as t, never written
+        self.mtwin = None
         self.t3 = None      # a sum t + t2 / t2 + t that stays live: later writes to its operands must not reach it
         self.m3 = None
         self.vfloat3 = False
@@ -85,7 +87,7 @@ class Harness:
 
     def check_all(self, salt):
         """invariant: every key maps to the model value (query order rotates with the step); key set unchanged"""
-        for tab, model, name in ((self.t, self.m, "t"), (self.t2, self.m2, "t2"), (self.t3, self.m3, "t3")):
+        for tab, model, name in ((self.t, self.m, "t"), (self.t2, self.m2, "t2"), (self.t3, self.m3, "t3"), (self.twin, self.mtwin, "twin-built-from-the-same-arrays")):
             if tab is None:
                 continue
             ks = list(model)
@@ -124,6 +126,11 @@ class Harness:
         if not r.ok:
             raise Violation("init:refused", got=r.brief(), keys=keys, mod=mod)
         self.t = r.value
+        # a second table built from the very same key and value arrays; it is never written to, so it must keep answering
+        # the constructor's values whatever happens to the first one
+        r2 = lib(lambda: HashTable(karr, v, mod=mod) if mod is not None else HashTable(karr, v))
+        if r2.ok:
+            self.twin, self.mtwin = r2.value, dict(self.m)
         buckets = [k % self.mod_eff for k in keys]
         self.nontrivial_shape = len(set(buckets)) < n or min(keys) < 0 or self.mod_eff == 1
         self.labels += ["dt:" + dt, "mod:" + ("default" if mod is None else "1" if mod == 1 else "explicit"), "values:" + vkind,
